@@ -574,6 +574,44 @@ func (p *Producer) opLedger() *transaction.Transaction {
 	return p.Tx(kind, []neotest.Signer{u.S}, w.Bytes(), -1)
 }
 
+// NotaryAssistedTx builds a transaction sent by the Notary contract and paid
+// from u's deposit on chain bc (nil if no notary node key is known to the
+// harness): fees is the total of system and network fee it declares.
+func NotaryAssistedTx(t testing.TB, bc *core.Blockchain, u *User, fees int64, vub, nonce uint32) *transaction.Transaction {
+	nodes, _, err := bc.GetDesignatedByRole(noderoles.P2PNotary)
+	if err != nil || len(nodes) == 0 {
+		return nil
+	}
+	var node *keys.PrivateKey
+	for i := 0; i < 6 && node == nil; i++ {
+		k := DetKey("role", i)
+		for _, n := range nodes {
+			if n.Equal(k.PublicKey()) {
+				node = k
+			}
+		}
+	}
+	if node == nil {
+		return nil
+	}
+	tx := transaction.New([]byte{byte(opcode.PUSH1)}, 100_0000)
+	tx.Nonce = nonce
+	tx.ValidUntilBlock = vub
+	tx.Attributes = []transaction.Attribute{{Type: transaction.NotaryAssistedT, Value: &transaction.NotaryAssisted{NKeys: 1}}}
+	tx.Signers = []transaction.Signer{{Account: nativehashes.Notary, Scopes: transaction.None}, {Account: u.Hash(), Scopes: transaction.None}}
+	neotest.AddNetworkFee(t, bc, tx, u.S)
+	tx.NetworkFee += 100*bc.FeePerByte() + 1000_0000
+	if extra := fees - tx.SystemFee - tx.NetworkFee; extra > 0 {
+		tx.NetworkFee += extra
+	}
+	magic := bc.GetConfig().Magic
+	tx.Scripts = []transaction.Witness{
+		{InvocationScript: append([]byte{byte(opcode.PUSHDATA1), keys.SignatureLen}, node.SignHashable(uint32(magic), tx)...)},
+		{InvocationScript: append([]byte{byte(opcode.PUSHDATA1), keys.SignatureLen}, u.Acc.PrivateKey().SignHashable(uint32(magic), tx)...), VerificationScript: u.Acc.Contract.Script},
+	}
+	return tx
+}
+
 // OpLedgerEdges queries the Ledger for every block (and one transaction of it,
 // if any) around the older edge of the traceable window.
 func (p *Producer) OpLedgerEdges() *transaction.Transaction {
